@@ -59,6 +59,10 @@ def run(ctx):
               only={'elf/structs.py': ('ELFStructs._create_note', 'ELFStructs._create_gnu_property', 'ELFStructs._create_gnu_abi',
                                        'ELFStructs._create_stabs')})
     ctx.floor('G-LIT', 15)
+    # note owner names and textual descriptors go through bytes2str: it must map every byte to one character, losslessly
+    ctx.rule('K-CODEC', 'bytes2str decodes bytes one-to-one (latin-1), without replacement')
+    ctx.guard('K-CODEC', 'bytes2str', check_codec, ctx, w)
+    ctx.floor('K-CODEC', 2)
     ctx.guard('H-CUR', 'cursor', hrules.run_h, ctx, w, [NOTES, SEC, SEG],
               only={SEC: ('NoteSection.', 'StabSection.'), SEG: ('NoteSegment.',)})
 
@@ -263,7 +267,28 @@ def check_front(ctx, w):
 
 
 ST = 'elf/structs.py'
+def check_codec(ctx, w):
+    f = w.model.func('common/utils.py', 'bytes2str')
+    rets = [r.value for r in expr.returns_of(f.node)]
+    ok = len(rets) == 1 and isinstance(rets[0], ast.Call) and isinstance(rets[0].func, ast.Attribute) and rets[0].func.attr == 'decode'
+    codec = None
+    extra = None
+    if ok:
+        c = rets[0]
+        a = list(c.args) + [k.value for k in c.keywords if k.arg == 'encoding']
+        codec = a[0].value.lower().replace('_', '-') if a and isinstance(a[0], ast.Constant) and isinstance(a[0].value, str) else None
+        extra = [k.arg for k in c.keywords if k.arg != 'encoding'] + [U(x) for x in c.args[1:]]
+    ctx.ob('K-CODEC', f.construct, 'decode with the one-byte-one-character codec', ok and codec in ('latin-1', 'latin1', 'iso-8859-1', 'iso8859-1', 'l1', '8859'),
+           got=codec, msg='note names and textual descriptors are arbitrary bytes: only latin-1 maps every byte to exactly one character; '
+           'utf-8 (with or without replacement) changes or rejects bytes >= 0x80')
+    ctx.ob('K-CODEC', f.construct, 'no error handler (nothing to replace or ignore)', ok and not extra, got=extra)
+    users = [g.construct for g in w.model.library_funcs() if g.mod.endswith('elf/notes.py') and any(
+        isinstance(c, ast.Call) and isinstance(c.func, ast.Name) and c.func.id == 'bytes2str' for c in ast.walk(g.node))]
+    ctx.ob('K-CODEC', 'elf/notes.py', 'note strings go through bytes2str', len(users) >= 1, got=users)
+
+
 MUTANTS = [
+    ('bytes2str-utf8', 'common/utils.py', "    return b.decode('latin-1')", "    return b.decode('utf-8', errors='replace')", 'K-CODEC'),
     ('roundup-desc-3', NOTES, "offset += roundup(note['n_descsz'], 2)", "offset += roundup(note['n_descsz'], 3)", 'I-ADV'),
     ('hdr-advance-dropped', NOTES, "        offset += nhdr_size\n", "        pass\n", 'I-'),
     ('buildid-string', NOTES, "note['n_desc'] = bytes2hex(desc_data)", "note['n_desc'] = bytes2str(desc_data)", 'G-SIG'),
